@@ -129,3 +129,70 @@ def f4_has_gap(opts):
         elif seen:
             gap = True
     return False
+
+
+# ---------------------------------------------------------------------------------------
+# F6: truncation family (C06; reused by C20 / C09)
+# ---------------------------------------------------------------------------------------
+
+F6_ELEMS = {
+    'i16+i64': [('Int16', 3), ('Int64', 2)],
+    'f32+ts': [('SingleFloat', 2), ('TimeStamp', 2)],
+    'str+i32': [('String', 2), ('Int32', 3)],
+    'i32+str': [('Int32', 3), ('String', 2)],
+    'str': [('String', 3)],
+    'c128+bool': [('ComplexDoubleFloat', 1), ('Boolean', 3)],
+}
+
+
+def _f6_enc(t, n):
+    return ['FULL', 'String', n, 2 * n + 1] if t == 'String' else ['FULL', t, n]
+
+
+def f6_files(tier):
+    """-> list of (name, history).  Every file is later cut at every offset."""
+    out = []
+    paths = [A, B]
+    chunk_opts = (1, 2, 3)
+    endians = (False,) if tier == 'quick' else (False, True)
+    for big in endians:
+        for ename, elems in F6_ELEMS.items():
+            objs = [(paths[i], _f6_enc(t, n)) for i, (t, n) in enumerate(elems)]
+            objs2 = [(paths[i], _f6_enc(t, n + 1)) for i, (t, n) in enumerate(elems)]
+            sized = all(t != 'String' for t, _ in elems)
+            layouts = ['contiguous'] + (['interleaved'] if sized else [])
+            for layout in layouts:
+                il = layout == 'interleaved'
+                if il:
+                    n0 = elems[0][1]
+                    objs_l = [(paths[i], _f6_enc(t, n0)) for i, (t, _n) in enumerate(elems)]
+                    objs2_l = [(paths[i], _f6_enc(t, n0 + 1)) for i, (t, _n) in enumerate(elems)]
+                else:
+                    objs_l, objs2_l = objs, objs2
+                for chunks in chunk_opts:
+                    if tier == 'quick' and chunks == 3 and ename not in ('i16+i64', 'str+i32'):
+                        continue
+                    S = lambda o=objs_l, c=chunks, **kw: G.seg(o, chunks=c, interleaved=il, big=big, **kw)
+                    S2 = lambda c=chunks: G.seg(objs2_l, chunks=c, interleaved=il, big=big)
+                    NM = lambda c=chunks: G.seg([], meta=False, chunks=c, interleaved=il, big=big)
+                    INH = lambda c=chunks: G.seg([(paths[0], ['SAME'])] + ([(paths[1], ['NODATA'])] if len(elems) > 1 else []),
+                                                 newlist=False, chunks=c, interleaved=il, big=big)
+                    shapes = {'S': [S()], 'S,S2': [S(), S2()], 'S,nometa': [S(), NM()], 'S,inh': [S(), INH()],
+                              'S,nometa,S2': [S(), NM(), S2(1)]}
+                    for sname, h in shapes.items():
+                        if tier == 'quick' and sname in ('S,nometa,S2',) and chunks > 1:
+                            continue
+                        out.append(('%s/%s/%s/x%d/%s' % (ename, layout, sname, chunks, 'BE' if big else 'LE'), h))
+        # DAQmx: one and two raw buffers
+        for nbuf in (1, 2):
+            widths = [6] if nbuf == 1 else [6, 4]
+            sc_a = [(3, 0, 0, 0, 0), (2, 0, 4, 0, 1)]
+            sc_b = [(5, 0, 1, 0, 0)] if nbuf == 1 else [(3, 1, 1, 0, 0)]
+            for chunks in chunk_opts:
+                for na, nb in ((2, 2), (3, 2)) if nbuf == 2 else ((2, 2),):
+                    d = lambda c=chunks: G.seg([(A, daqmx_enc(na, sc_a, widths)), (B, daqmx_enc(nb, sc_b, widths))],
+                                               chunks=c, big=big)
+                    NM = lambda c=chunks: G.seg([], meta=False, chunks=c, big=big)
+                    out.append(('daqmx%d/%d,%d/S/x%d/%s' % (nbuf, na, nb, chunks, 'BE' if big else 'LE'), [d()]))
+                    out.append(('daqmx%d/%d,%d/S,nometa/x%d/%s' % (nbuf, na, nb, chunks, 'BE' if big else 'LE'), [d(), NM()]))
+    return out
